@@ -180,9 +180,17 @@ func (r *Run) load(fr *frame, T types.Type, addr Value) Value {
 		}
 		v := *p
 		r.checkSort(fr, T, v)
+		if r.eng.cfg.Race {
+			r.raceAccess(fr, p, false)
+		}
 		return copyVal(v)
 	case SymPtr:
 		n := len(p.back)
+		if r.eng.cfg.Race {
+			for i := range p.back {
+				r.raceAccess(fr, &p.back[i], false)
+			}
+		}
 		res := cellTerm(p.back[n-1])
 		for i := n - 2; i >= 0; i-- {
 			res = r.tt.Ite(r.tt.Eq(p.idx, r.tt.Const(64, uint64(i))), cellTerm(p.back[i]), res)
@@ -234,10 +242,18 @@ func (r *Run) store(fr *frame, T types.Type, addr Value, v Value) {
 			fr.rtPanic("nil", "invalid memory address or nil pointer dereference")
 		}
 		r.checkSort(fr, T, *p)
+		if r.eng.cfg.Race {
+			r.raceAccess(fr, p, true)
+		}
 		r.storeInto(T, p, v)
 		r.noteWrite(fr, p)
 	case SymPtr:
 		nv := v.(*Term)
+		if r.eng.cfg.Race {
+			for i := range p.back {
+				r.raceAccess(fr, &p.back[i], true)
+			}
+		}
 		for i := range p.back {
 			old := cellTerm(p.back[i])
 			setCell(&p.back[i], r.tt.Ite(r.tt.Eq(p.idx, r.tt.Const(64, uint64(i))), nv, old))
@@ -1034,6 +1050,9 @@ func (r *Run) mapFind(fr *frame, m *Map, key Value) *mapEntry {
 }
 
 func (r *Run) mapUpdate(fr *frame, m *Map, key, val Value) {
+	if r.eng.cfg.Race {
+		r.raceTouch(fr, m, true)
+	}
 	if e := r.mapFind(fr, m, key); e != nil {
 		e.v = copyVal(val)
 		return
@@ -1044,6 +1063,9 @@ func (r *Run) mapUpdate(fr *frame, m *Map, key, val Value) {
 func (r *Run) lookup(fr *frame, instr *ssa.Lookup, x, idx Value) Value {
 	switch x := x.(type) {
 	case *Map:
+		if r.eng.cfg.Race && x != nil {
+			r.raceTouch(fr, x, false)
+		}
 		var v Value
 		ok := false
 		if e := r.mapFind(fr, x, idx); e != nil {
@@ -1172,6 +1194,11 @@ func (r *Run) callBuiltin(fr *frame, pos token.Pos, fn *ssa.Builtin, args []Valu
 			if len(t) == 0 {
 				return s
 			}
+			if r.eng.cfg.Race {
+				for i := range t {
+					r.raceAccess(fr, &t[i], false)
+				}
+			}
 			for _, e := range t {
 				s = append(s, copyVal(e))
 			}
@@ -1198,6 +1225,10 @@ func (r *Run) callBuiltin(fr *frame, pos token.Pos, fn *ssa.Builtin, args []Valu
 			// handle overlap like memmove
 			tmp := make([]Value, n)
 			for i := 0; i < n; i++ {
+				if r.eng.cfg.Race {
+					r.raceAccess(fr, &src[i], false)
+					r.raceAccess(fr, &dst[i], true)
+				}
 				tmp[i] = copyVal(src[i])
 			}
 			for i := 0; i < n; i++ {
